@@ -3,12 +3,31 @@ use std::fs::{File, OpenOptions};
 use std::io::{Read, Write};
 use std::path::Path;
 
-pub fn write_file_if_changed<T: AsRef<Path>>(path: T, data: &[u8]) -> Result<bool> {
-    if let Ok(mut file) = File::open(path.as_ref()) {
+fn is_unchanged(path: &Path, data: &[u8]) -> bool {
+    if let Ok(mut file) = File::open(path) {
         let mut content = Vec::new();
         if file.read_to_end(&mut content).is_ok() && content == data {
-            return Ok(false);
+            return true;
         }
+    }
+    false
+}
+
+/// Like [`write_file_if_changed`], for generated outputs: the file is replaced
+/// atomically (temp file + rename). A build killed mid-write must not leave a
+/// truncated output behind, because the next incremental build only sees that
+/// the output exists and would keep it.
+pub fn write_output_if_changed<T: AsRef<Path>>(path: T, data: &[u8]) -> Result<bool> {
+    if is_unchanged(path.as_ref(), data) {
+        return Ok(false);
+    }
+    veryl_path::atomic_write(path.as_ref(), data).into_diagnostic()?;
+    Ok(true)
+}
+
+pub fn write_file_if_changed<T: AsRef<Path>>(path: T, data: &[u8]) -> Result<bool> {
+    if is_unchanged(path.as_ref(), data) {
+        return Ok(false);
     }
 
     let mut file = OpenOptions::new()
